@@ -150,6 +150,56 @@ func Run(r *mc.Run) {
 		return runIns(r, "matrix-6x6", c, ins, st)
 	})
 
+	// ---- scenario 1b: the encoder's parameters (preset, level, dictionary / window size, framing) are part of the
+	// configuration: every non-default variant on the diagonal, as control member against all six data encodings, and as
+	// data member against all six control encodings. The model - hence the expected result - is unchanged.
+	type pm struct {
+		p  paragraph
+		es []string
+		f  []gen.TarEntry
+	}
+	pms := []pm{{ps[1], controlEntrySets[2], dfs[2]}, {ps[0], controlEntrySets[0], dfs[1]}}
+	var variants []string
+	var vblobs [][]byte
+	for _, x := range pms {
+		vblobs = append(vblobs, gen.DebModel{Fields: x.p.fields, ControlEntries: x.es}.ControlTar(), gen.BuildTar(x.f))
+	}
+	for _, a := range comps {
+		for _, v := range gen.DebCompVariants(a)[1:] {
+			variants = append(variants, v)
+		}
+	}
+	if err := c.Prepare(variants, vblobs...); err != nil {
+		r.HarnessError("compressor (variants): %v", err)
+		return
+	}
+	paramSelfCheck(r, c, vblobs[0])
+	var par [][]In
+	for _, v := range variants {
+		var ins []In
+		seen := map[[2]string]bool{}
+		add := func(cc, dc string) {
+			if seen[[2]string{cc, dc}] {
+				return
+			}
+			seen[[2]string{cc, dc}] = true
+			for _, x := range pms {
+				in := mkIn(x.p, x.es, x.f, cc, dc, "", "")
+				ins = append(ins, in)
+			}
+		}
+		add(v, v)
+		for _, o := range comps {
+			add(v, o)
+			add(o, v)
+		}
+		par = append(par, ins)
+	}
+	r.Scenario("encoder-parameters", map[string]interface{}{"variants": variants, "placement": "diagonal (v/v), row (control=v x 6 data encodings), column (6 control encodings x data=v)",
+		"models":       []string{"full/4 control entries/3 data entries", "minimal/[./control]/one file"},
+		"not_explored": "xz or lzma dictionaries above 64 MiB (no xz preset asks for more; the library documents 64 MiB as its default limit), zstd windows above 64 MiB"},
+		len(par), func(i int, st *mc.Stats) bool { return runIns(r, "encoder-parameters", c, par[i], st) })
+
 	// ---- scenario 2: rejections
 	pairs := [][2]string{{"none", "none"}, {"gz", "gz"}}
 	if has(comps, "xz") && has(comps, "zst") {
@@ -218,6 +268,41 @@ func Run(r *mc.Run) {
 	r.Scenario("map-orders", map[string]interface{}{"compression_pairs": mp, "extras": extras, "layouts": layouts, "second_control_or_data_member": dups,
 		"orders": MapOrderNote, "repetitions": MapOrderReps}, len(det),
 		func(i int, st *mc.Stats) bool { return runIns(r, "map-orders", c, det[i:i+1], st) })
+}
+
+// paramSelfCheck makes sure the parameter variants really produce the stream properties they are named after
+// (otherwise the alphabet would be silently narrower than stated).
+func paramSelfCheck(r *mc.Run, c *gen.DebCompressor, blob []byte) {
+	get := func(comp string) []byte {
+		z, err := c.Compress(comp, blob)
+		if err != nil {
+			return nil
+		}
+		return z
+	}
+	decl := map[string]int64{}
+	chk := func(comp string, got, want int64) {
+		if get(comp) == nil {
+			return // encoding not available: reported as not covered elsewhere
+		}
+		decl[comp] = got
+		if got != want {
+			r.HarnessError("variant %s declares %d, expected %d", comp, got, want)
+		}
+	}
+	chk("xz", gen.XZDictSize(get("xz")), 8<<20)
+	chk("xz:0", gen.XZDictSize(get("xz:0")), 256<<10)
+	chk("xz:9", gen.XZDictSize(get("xz:9")), 64<<20)
+	chk("xz:9e", gen.XZDictSize(get("xz:9e")), 64<<20)
+	chk("xz:dict=16M", gen.XZDictSize(get("xz:dict=16M")), 16<<20)
+	chk("xz:dict=64M", gen.XZDictSize(get("xz:dict=64M")), 64<<20)
+	chk("zst:window=64M", gen.ZstdWindowSize(get("zst:window=64M")), 64<<20)
+	chk("zst:window=1K", gen.ZstdWindowSize(get("zst:window=1K")), 1<<10)
+	chk("lzma:py9", gen.LZMAAloneDictSize(get("lzma:py9")), 64<<20)
+	if z := get("gz:0"); z != nil && len(z) < len(blob) {
+		r.HarnessError("gz:0 is not stored deflate (%d < %d bytes)", len(z), len(blob))
+	}
+	r.Extra["declared_dictionary_or_window_bytes"] = decl
 }
 
 func has(xs []string, x string) bool {
@@ -351,11 +436,14 @@ func dpkgCross(r *mc.Run, c *gen.DebCompressor, ps []paragraph, dfs [][]gen.TarE
 		body := []byte("payload of " + p.name + "\n")
 		os.WriteFile(filepath.Join(root, "DEBIAN/control"), gen.RenderDebControl(p.fields), 0o644)
 		os.WriteFile(filepath.Join(root, "usr/share/x/file"), body, 0o644)
-		for _, z := range []string{"none", "gzip", "xz", "zstd"} {
-			out := filepath.Join(dir, fmt.Sprintf("d%d-%s.deb", pi, z))
-			msg, err := exec.Command("dpkg-deb", "--root-owner-group", "-Z"+z, "-b", root, out).CombinedOutput()
+		for _, zl := range []string{"none", "gzip", "xz", "zstd", "gzip -z1", "xz -z9", "xz -z0", "zstd -z19"} {
+			z := strings.Fields(zl)[0]
+			out := filepath.Join(dir, fmt.Sprintf("d%d-%s.deb", pi, strings.ReplaceAll(zl, " ", "")))
+			args := []string{"--root-owner-group", "-Z" + z}
+			args = append(args, strings.Fields(zl)[1:]...)
+			msg, err := exec.Command("dpkg-deb", append(args, "-b", root, out)...).CombinedOutput()
 			if err != nil {
-				tc["dpkg-deb -Z"+z] = "skipped: " + strings.TrimSpace(string(msg))
+				tc["dpkg-deb -Z"+zl] = "skipped: " + strings.TrimSpace(string(msg))
 				continue
 			}
 			b, err := os.ReadFile(out)
@@ -363,7 +451,7 @@ func dpkgCross(r *mc.Run, c *gen.DebCompressor, ps []paragraph, dfs [][]gen.TarE
 				continue
 			}
 			comp := map[string]string{"none": "none", "gzip": "gz", "xz": "xz", "zstd": "zst"}[z]
-			ins = append(ins, In{Name: "built by dpkg-deb -Z" + z + " from model " + p.name, Exp: p.exp, Verdict: "must-load", Deb: b,
+			ins = append(ins, In{Name: "built by dpkg-deb -Z" + zl + " from model " + p.name, Exp: p.exp, Verdict: "must-load", Deb: b,
 				Model: gen.DebModel{Fields: p.fields, ControlComp: comp, DataComp: comp, DataFiles: []gen.TarEntry{
 					{Name: "./", Dir: true}, {Name: "./usr/", Dir: true}, {Name: "./usr/share/", Dir: true}, {Name: "./usr/share/x/", Dir: true},
 					{Name: "./usr/share/x/file", Body: body}}}})
@@ -373,7 +461,7 @@ func dpkgCross(r *mc.Run, c *gen.DebCompressor, ps []paragraph, dfs [][]gen.TarE
 	if len(ins) == 0 {
 		return
 	}
-	r.Scenario("dpkg-deb-built", map[string]interface{}{"models": []string{"full", "custom"}, "dpkg_deb_Z": []string{"none", "gzip", "xz", "zstd"},
+	r.Scenario("dpkg-deb-built", map[string]interface{}{"models": []string{"full", "custom"}, "dpkg_deb_Z": []string{"none", "gzip", "xz", "zstd", "gzip -z1", "xz -z9", "xz -z0", "zstd -z19"},
 		"note": "bytes produced by the real dpkg-deb; the model is the directory tree given to it (one file below three directories)"},
 		len(ins), func(i int, st *mc.Stats) bool {
 			in := ins[i]
